@@ -8,6 +8,26 @@ import os
 import random
 
 import vf
+import wiring
+
+
+def wired_limit(ctx):
+    """the limit as wired from the command line: flag -> GetHeaderInjectors()[2] -> Marshal, expected strings evaluated by TLC (H2FpOps.Marshal)"""
+    cfgs, limits = wiring.prio_limit_configs()
+    outs = wiring.run_wiring(ctx, cfgs)
+    import c06
+    pres, key = [], []
+    for n, out in zip(limits, outs):
+        for k in range(5):
+            pres.append({'settings': [[3, 100]], 'wu': 12, 'prios': [[3 + 2 * i, 0, 0, 200 + i] for i in range(k)], 'order': 'mp', 'n': n})
+            key.append((n, k, out['prio_fp'][k]))
+    want = c06.h2_batch(ctx, pres)
+    bad = 0
+    for i, (n, k, got) in enumerate(key):
+        if got != want[i]:
+            bad += 1
+            ctx.violation({'check': 'C03', 'kind': 'flag_wiring', 'limit': n}, 'with -max-h2-priority-frames=%s (10000 = default) a connection with %d priorities is printed as %r, specification says %r' % (n, k, got, want[i]), {'limit': n, 'priorities': k, 'got': got, 'want': want[i]})
+    return len(key)
 
 
 def run(ctx):
@@ -52,8 +72,10 @@ def run(ctx):
     for m in o['mismatches'] or []:
         ctx.violation({'check': 'C03', 'kind': m['kind'], 'limit': m['n']},
                       'frames %s with limit %s: backend saw %r, specification says %r (%s)' % (m.get('frames'), m.get('n'), m.get('got'), m.get('want'), m.get('err')), m)
+    nwired = wired_limit(ctx)
     cov = {
-        'traces_validated_against_impl': o['paths'],
+        'traces_validated_against_impl': o['paths'] + nwired,
+        'flag_wiring_cases (max-h2-priority-frames x captured priorities, through GetHeaderInjectors)': nwired,
         'samples': o['samples'] or [{'frames': [s['f'] for s in paths[0]['steps']], 'spec': paths[0]['steps'][-1].get('expect')}],
         'requests_checked': o['requests'], 'frames_sent': o['frames'],
         'graph_edges_total': len(g['edges']), 'graph_edges_on_replayed_paths': len(covered), 'edge_sample_fraction': sample,
